@@ -1671,4 +1671,90 @@ theorem renderNoFinalNL_concat : ∀ (a : List Line) (l : Line), renderNoFinalNL
       simp only [List.cons_append, renderNoFinalNL, render, List.append_assoc] at ih ⊢
       rw [ih]
 
+/-! ## C. escapes and the result map (proved here so that the equation lemmas of `expEsc`, `put`, `get` are not declared in the property module) -/
+
+
+
+/-- text without a backslash is left alone -/
+theorem expandEscapes_plain_lemma (s : Str) (h : ∀ c ∈ s, c ≠ '\\') : expandEscapes s = s := by
+  unfold expandEscapes
+  induction s with
+  | nil => rfl
+  | cons c s ih =>
+    have hc : (c == '\\') = false := by simpa using h c (by simp)
+    simp only [expEsc, hc, Bool.false_eq_true, if_false]
+    rw [ih (fun x hx => h x (by simp [hx]))]
+
+/-- the single-character escapes: the table of `escapeSeqRegex` (`\\$` becomes the template escape `$$`) -/
+theorem expandEscapes_simple_lemma (c : Char) (x s : Str) (h : simpleEscape c = some x) :
+    expandEscapes ('\\' :: c :: s) = x ++ expandEscapes s := by
+  simp [expandEscapes, expEsc, h]
+
+theorem simpleEscape_table_lemma :
+    simpleEscape 'a' = some ['\x07'] ∧ simpleEscape 'b' = some ['\x08'] ∧ simpleEscape 'f' = some ['\x0c'] ∧
+    simpleEscape 'n' = some ['\n'] ∧ simpleEscape 'r' = some ['\r'] ∧ simpleEscape 't' = some ['\t'] ∧
+    simpleEscape 'v' = some ['\x0b'] ∧ simpleEscape '\\' = some ['\\'] ∧ simpleEscape '"' = some ['"'] ∧
+    simpleEscape '$' = some ['$', '$'] ∧ simpleEscape 'x' = none ∧ simpleEscape 'u' = none ∧ simpleEscape '\'' = none := by
+  decide
+
+/-- any other backslash pair is kept as it is -/
+theorem expandEscapes_other_lemma (c : Char) (s : Str) (h : simpleEscape c = none) (h0 : c ≠ '0') :
+    expandEscapes ('\\' :: c :: s) = '\\' :: expandEscapes (c :: s) := by
+  have : (c == '0') = false := by simpa using h0
+  simp [expandEscapes, expEsc, h, this]
+
+/-- XSI octal escapes `\\0ddd` (exactly three octal digits, value ≤ 255) -/
+example : expandEscapes ['\\', '0', '1', '2', '3', 'Z'] = ['S', 'Z'] := by decide
+example : expandEscapes ['\\', '0', '1', '2'] = ['\\', '1', '2'] := by decide
+example : expandEscapes ['\\', '0', '7', '7', '7'] = ['\\', '7', '7', '7'] := by decide
+
+
+
+theorem get_put_same_lemma (m : Map) (k v : Str) : get (put m k v) k = some v := by
+  induction m with
+  | nil => simp [put, get]
+  | cons p m ih =>
+    obtain ⟨k', v'⟩ := p
+    by_cases h : k = k'
+    · simp [put, get, h]
+    · simp [put, get, h, ih]
+
+theorem get_put_other_lemma (m : Map) (k k' v : Str) (h : k' ≠ k) : get (put m k v) k' = get m k' := by
+  induction m with
+  | nil => simp [put, get, h]
+  | cons p m ih =>
+    obtain ⟨k₀, v₀⟩ := p
+    by_cases h0 : k = k₀
+    · subst h0; simp [put, get, h]
+    · by_cases h1 : k' = k₀
+      · simp [put, get, h0, h1]
+      · simp [put, get, h0, h1, ih]
+
+/-- keys stay distinct: the association list is a faithful Go map -/
+theorem put_keys_nodup_lemma (m : Map) (k v : Str) (h : (m.map Prod.fst).Nodup) : ((put m k v).map Prod.fst).Nodup := by
+  induction m with
+  | nil => simp [put]
+  | cons p m ih =>
+    obtain ⟨k₀, v₀⟩ := p
+    simp only [List.map_cons, List.nodup_cons] at h
+    by_cases h0 : k = k₀
+    · subst h0; simpa [put] using h
+    · simp only [put, h0, if_false, List.map_cons, List.nodup_cons]
+      refine ⟨?_, ih h.2⟩
+      intro hm
+      have : ∀ (m : Map), k₀ ∈ (put m k v).map Prod.fst → k₀ ∈ m.map Prod.fst := by
+        intro m
+        induction m with
+        | nil => intro hm; simp [put] at hm; exact absurd hm.symm h0
+        | cons q m ihm =>
+          obtain ⟨k₁, v₁⟩ := q
+          by_cases h1 : k = k₁
+          · subst h1; simp [put]
+          · simp only [put, h1, if_false, List.map_cons, List.mem_cons]
+            rintro (h | h)
+            · exact Or.inl h
+            · exact Or.inr (ihm h)
+      exact h.1 (this m hm)
+
+
 end CV.Dotenv
